@@ -75,6 +75,11 @@ type Frame struct {
 	invCtx  map[*ssa.BasicBlock]map[string]*Val
 	decr0   map[*ssa.BasicBlock]string
 	unshared map[string]bool
+	ghostAlias map[string]string // conformance: interface ghost field key -> abstraction expression
+	unaliased  string            // set when a clause read an interface ghost field of the receiver that has no abstraction
+	aliasSelf  *Val              // the interface value wrapping the receiver
+	aliasRecv  *Val              // the receiver itself
+	atExit    bool // evaluating postconditions: a local name denotes a definition that reaches every return
 	curBlock  *ssa.BasicBlock
 	dryHeader *ssa.BasicBlock
 	dryStates *[]*State
